@@ -1,17 +1,11 @@
-"""Per-property configuration of ./check."""
-COMMON_TRUST = [
-    "Lean compiler/runtime for the line driver (same definitions the theorems are about)",
-    "correspondence harness (generators, canonicalisation, diff) in /verif/harness",
-]
-PROPS = {
-    "C07": dict(
-        props_module="Ldap3V.Props.C07",
-        claim="Theorems (all trees, all suffixes, all i64, all definite-length forms; no size or depth bound other than lber's MAX_DEPTH=64) over Model.Ber, kernel-checked; model tied to lber by ~85k differential lines per quick run plus Rust-side round-trip/minimality oracles on the real encoder/parser.",
-        lanes=["ber"],
-        trusted=COMMON_TRUST + ["nom 7 streaming take/bits/be_u8 semantics (modelled)", "i64::to_be_bytes"],
-        assumptions=["tag numbers <= 30 (property scope)", "nesting depth <= lber MAX_DEPTH = 64 (deeper input is rejected; introduced by the C11 fix)",
-                     "lengths < 2^64 (usize)"],
-    ),
-}
-
+"""Per-property configuration of ./check: one JSON file per claimed property in cfg/."""
+import json, os
+_D = os.path.join(os.path.dirname(os.path.abspath(__file__)), "cfg")
+PROPS = {}
+for _f in sorted(os.listdir(_D)):
+    if _f.endswith(".json") and _f[0] == "C":
+        PROPS[_f[:-5]] = json.load(open(os.path.join(_D, _f)))
 PENDING = {}
+_p = os.path.join(_D, "pending.json")
+if os.path.exists(_p):
+    PENDING = json.load(open(_p))
